@@ -22,8 +22,8 @@ FOCUS = {
     "C04": lambda w: any(c["kind"] in ("junction", "resjunction") for c in w["comps"]),
     "C05": lambda w: any(c["kind"] == "timed" for c in w["comps"]),
 }
-LIB_QUICK = [("udt", 8), ("tb_simple", 8), ("hiv", 6), ("tb", 3)]
-LIB_THOROUGH = [("udt", 400), ("usdt", 400), ("udt_dyn", 400), ("tb_simple", 400), ("tb_simple_dyn", 400), ("hiv", 400), ("hiv_dyn", 400), ("hypertension", 400),
+LIB_QUICK = [("udt", 8), ("tb_simple", 8), ("hiv", 6), ("combined", 6), ("tb", 3)]
+LIB_THOROUGH = [("sir", 400), ("combined", 400), ("udt", 400), ("usdt", 400), ("udt_dyn", 400), ("tb_simple", 400), ("tb_simple_dyn", 400), ("hiv", 400), ("hiv_dyn", 400), ("hypertension", 400),
                 ("hypertension_dyn", 400), ("diabetes", 400), ("cervicalcancer", 400), ("tb", 400)]
 
 
@@ -138,6 +138,68 @@ def free_run(args):
     return dict(trace=lines, mism=[], skipped=None)
 
 
+def fixture_projects(at):
+    """Foreign executions with timed compartments and junctions: the repository's own test fixtures (and sir_vaccine), driven the
+    way the tests drive them. Fixtures that do not load are skipped (and listed in the evidence)."""
+    import sciris as sc
+
+    T = os.path.join(C.REPO, "tests")
+    out, skipped = [], []
+    pairs = [("timed_test", "timed_test_framework.xlsx", "timed_test_databook.xlsx"), ("timed_tb", "timed_tb_framework.xlsx", "timed_tb_databook.xlsx"),
+             ("timed_transfer", "timed_test_transfer_framework.xlsx", "timed_test_transfer_databook.xlsx"), ("timed_transfer_2", "timed_test_transfer_framework.xlsx", "timed_test_transfer_databook_2.xlsx"),
+             ("timed_transfer_3", "timed_test_transfer_framework.xlsx", "timed_test_transfer_databook_3.xlsx")]
+    for name, fw, db in pairs:
+        try:
+            out.append((name, at.Project(framework=os.path.join(T, fw), databook=os.path.join(T, db), do_run=False)))
+        except Exception as ex:
+            skipped.append((name, type(ex).__name__))
+    for name, fw in [("timed_indirect", "timed_test_indirect_framework.xlsx"), ("timed_indirect2", "timed_test_indirect2_framework.xlsx"), ("timed_eligibility", "timed_test_eligibility_framework.xlsx"),
+                     ("junction", "framework_junction_test.xlsx"), ("junction_remainder", "framework_junction_remainder_test.xlsx"), ("junction_remainder_2", "framework_junction_remainder_test_2.xlsx"),
+                     ("junction_feed_forward", "framework_junction_feed_forward_test.xlsx"), ("junction_feed_forward_timed", "framework_junction_feed_forward_timed_test.xlsx"),
+                     ("junction_timed_remainder", "framework_junction_timed_remainder_test.xlsx"), ("only_junctions", "test_only_junctions_framework.xlsx")]:
+        try:
+            Fw = at.ProjectFramework(os.path.join(T, fw))
+            D = at.ProjectData.new(Fw, np.array([2018.0]), pops=1, transfers=0)
+            P = at.Project(framework=Fw, databook=D.to_spreadsheet(), do_run=False)
+            P.settings.update_time_vector(start=2018, end=2021, dt=1 / 12 if "timed" in name else 0.25)
+            out.append((name, P))
+        except Exception as ex:
+            skipped.append((name, type(ex).__name__))
+    try:
+        out.append(("sir_vaccine", at.Project(framework=os.path.join(str(at.LIBRARY_PATH), "sir_vaccine_framework.xlsx"), databook=os.path.join(str(at.LIBRARY_PATH), "sir_vaccine_databook.xlsx"), do_run=False)))
+    except Exception as ex:
+        skipped.append(("sir_vaccine", type(ex).__name__))
+    return out, skipped
+
+
+FIXTURES_SKIPPED = []
+
+
+QUICK_FIXTURES = {"timed_test", "timed_transfer_2", "junction_remainder", "junction_feed_forward_timed", "junction_timed_remainder", "sir_vaccine"}
+
+
+def fixture_traces(outdir, nsteps, only=None):
+    at = C.quiet_atomica()
+    projs, skipped = fixture_projects(at)
+    if only:
+        projs = [(n, P) for n, P in projs if n in only]
+    FIXTURES_SKIPPED[:] = skipped
+    paths = []
+    for name, P in projs:
+        try:
+            with O.LinkObserver():
+                r = P.run_sim(P.parsets[0], store_results=False)
+        except Exception as ex:
+            FIXTURES_SKIPPED.append((name, "run: " + type(ex).__name__))
+            continue
+        T = len(r.model.t) - 1
+        steps = sorted(set(list(range(min(nsteps, T))) + [T - 2, T - 1]))
+        p = os.path.join(outdir, "fix_%s.ndjson" % name)
+        O.record_run(r.model, p, wid="fixture:" + name, steps=[k for k in steps if k >= 0])
+        paths.append(p)
+    return paths
+
+
 def library_traces(models, outdir):
     at = C.quiet_atomica()
     paths = []
@@ -219,6 +281,7 @@ def run(prop, tier):
     fres = E.pool_map(allw, free_run, free)
     ffiles = write_world_traces(allw, free, fres, os.path.join(tdir, "free"))
     lib = library_traces(LIB_THOROUGH if thorough else LIB_QUICK, tdir) if prop in ("C01", "C02", "C03", "C04") else []
+    lib += fixture_traces(tdir, 400 if thorough else 8, only=None if thorough else QUICK_FIXTURES)
     paths = list(files) + list(ffiles) + lib
     out = validate_traces(paths, clauses)
     nsteps = 0
@@ -235,12 +298,13 @@ def run(prop, tier):
                 detail = dict(source="free multi-step run", world=wid, case=json.loads(json.dumps(case, default=str)), step=sj, clause=clause, index=idx)
             else:
                 wid = os.path.basename(p)[4:-7]
-                detail = dict(source="library model", model=wid, ti=ti, clause=clause, index=idx)
+                detail = dict(source="library model / test fixture", model=wid, ti=ti, clause=clause, index=idx)
             V.violation("%s %s world=%s" % (prop, clause, wid.split("_dt")[0]), detail)
     cov["traces_validated_against_impl"] = len(paths)
     cov["trace_steps_validated"] = nsteps
     cov["trace_clauses"] = clauses
     cov["library_traces"] = [os.path.basename(p) for p in lib]
+    cov["fixtures_skipped"] = [list(x) for x in FIXTURES_SKIPPED]
     if sel:
         wid, case = sel[0]
         cov["samples"].append(dict(kind="replayed behaviour", world=wid, case=case))
